@@ -5,12 +5,15 @@
 //!   × page body = sequence of calls from a 10-call alphabet (Helvetica text, Courier text at a
 //!   position, filled rectangle, stroked line with colour + width, Bézier, q/cm/Q, gray 2×2
 //!   image, RGB 2×1 image, text annotation, outline entry)
-//!   * `single-page`: every body of length ≤ 3 (quick) / ≤ 4 (thorough)
-//!   * `multi-page` : every 2- and 3-page document whose pages have bodies of length ≤ 1
-//!     (thorough: 2-page documents additionally with bodies of length ≤ 2)
-//!   × the 16 writer configurations (xref stream × object streams × compression × version),
-//!   all 16 inside one execution so that they can be compared with each other.
-//!   size / rotation / metadata are deviation dimensions (DEV(1) quick, DEV(2) thorough).
+//!   * `single-page`: every body of length ≤ 3 (quick) / ≤ 4 (thorough), DEV(1) over size,
+//!     rotation, metadata (thorough adds `single-page-dev2`: bodies ≤ 2 under DEV(2))
+//!   * `two-pages`  : every 2-page document with bodies of length ≤ 1, DEV(1) over the per-page
+//!     size / rotation and metadata (thorough adds bodies ≤ 2)
+//!   * `three-pages`: every 3-page document with bodies of length ≤ 1 (thorough: DEV(1))
+//!   × the writer configurations (xref stream × object streams × compression × version): the 8
+//!   without object streams for every program; the 8 with object streams for the sub-family
+//!   described at `configs_for` (each such file carries a 1 000 001-entry xref section).
+//!   All configurations of one execution are compared with each other.
 //!
 //! Oracles
 //!   (i)   library reader under default options: page count, MediaBox, /Rotate, operator list
@@ -742,7 +745,7 @@ pub(crate) fn slug(msg: &str) -> String {
 }
 
 fn run_program(c: &mut Ctx, p: &Program, cfgs: &[Cfg]) {
-    c.input(vx::h64(p));
+    c.input(vx::h64(&(p, cfgs)));
     if p.content_calls() > 0 {
         c.nontrivial();
     }
@@ -874,7 +877,11 @@ fn run_program(c: &mut Ctx, p: &Program, cfgs: &[Cfg]) {
 ///   thorough: no deviation, and one page with a body of ≤ 2 calls, or two pages with bodies of
 ///             ≤ 1 call, or three pages with the same body of ≤ 1 call.
 /// The 8 configurations without object streams are run for every program.
-pub(crate) fn configs_for(p: &Program, thorough: bool) -> Vec<Cfg> {
+/// An eligible program is run in five separate executions (choice point `config_block`): the 8
+/// plain configurations, and four pairs of object-stream configurations (xref form ×
+/// compression; both header versions in the thorough tier, 1.7 only in the quick tier), each together with the default configuration so that the
+/// comparison between configurations is chained through it.
+pub(crate) fn configs_for(c: &mut Ctx, p: &Program, thorough: bool) -> Vec<Cfg> {
     let all = Cfg::all();
     let plain = !p.metadata && p.pages.iter().all(|pg| pg.size == 0 && pg.rot == 0);
     let same = p.pages.windows(2).all(|w| w[0].body == w[1].body);
@@ -885,64 +892,19 @@ pub(crate) fn configs_for(p: &Program, thorough: bool) -> Vec<Cfg> {
             (3, l) => l <= 1 && thorough && same,
             _ => false,
         };
-    if eligible {
-        all
-    } else {
-        all.into_iter().filter(|c| !c.obj_streams).collect()
+    let plain8: Vec<Cfg> = all.iter().copied().filter(|c| !c.obj_streams).collect();
+    if !eligible {
+        return plain8;
     }
-}
-
-fn probe() {
-    use prog::*;
-    use std::time::Instant;
-    if std::env::var("C02_PROBE").as_deref() == Ok("loop") {
-        let p = Program { pages: vec![PageProg { size: 0, rot: 0, body: vec![Call::HelvText, Call::GrayImage, Call::FillRect] }], metadata: true };
-        let cfg = Cfg::from_index(0);
-        let (mut tw, mut tr, mut tl, mut tm) = (0u128, 0u128, 0u128, 0u128);
-        for _ in 0..300 {
-            let t = Instant::now();
-            let b = prog::write(&p, cfg).unwrap();
-            tw += t.elapsed().as_micros();
-            let t = Instant::now();
-            let _ = prog::observe_ref(&b);
-            tr += t.elapsed().as_micros();
-            let t = Instant::now();
-            let _ = prog::observe_lib(&b);
-            tl += t.elapsed().as_micros();
-            let t = Instant::now();
-            let _ = prog::model(&p, false);
-            let _ = p.short();
-            tm += t.elapsed().as_micros();
-        }
-        eprintln!("per round trip (us): write={} ref={} lib={} model+json={}", tw / 300, tr / 300, tl / 300, tm / 300);
-        return;
+    let b = c.choose("config_block", 5);
+    if b == 0 {
+        return plain8;
     }
-    let p = Program { pages: vec![PageProg { size: 0, rot: 0, body: vec![Call::HelvText, Call::GrayImage, Call::FillRect] }], metadata: true };
-    for cfg in Cfg::all() {
-        let t = Instant::now();
-        let b = prog::write(&p, cfg);
-        let tw = t.elapsed();
-        let Ok(b) = b else { eprintln!("{} write failed {:?}", cfg.label(), b.err()); continue };
-        let t = Instant::now();
-        let r = prog::observe_ref(&b);
-        let tr = t.elapsed();
-        let t = Instant::now();
-        let l = prog::observe_lib(&b);
-        let tl = t.elapsed();
-        let t = Instant::now();
-        let v = refpdf::file::validate(&b);
-        let tv = t.elapsed();
-        eprintln!(
-            "{:<45} len={:>9} write={:?} ref={:?} lib={:?} validate={:?}\n    ref: {}\n    lib: {}\n    validate: {:?}",
-            cfg.label(), b.len(), tw, tr, tl, tv,
-            match &r { Ok(o) => format!("ok pages={} diff={:?}", o.pages.len(), prog::diff(&prog::model(&p, false), o)), Err(e) => format!("ERR {e}") },
-            match &l { Ok(o) => format!("ok pages={} diff={:?}", o.pages.len(), prog::diff(&prog::model(&p, false), o)), Err(e) => format!("ERR {e}") },
-            v.iter().take(6).collect::<Vec<_>>()
-        );
-        if std::env::var("C02_PROBE").as_deref() == Ok("dump") {
-            let _ = std::fs::write(format!("/verif/.scratch/C02-w2/probe-{}.pdf", cfg.label().replace(' ', "_")), &b);
-        }
-    }
+    let (xs, comp) = ((b - 1) & 1 != 0, (b - 1) & 2 == 0);
+    let mut v = vec![Cfg::from_index(0)];
+    // quick: header version 1.7 only (the version changes nothing but the header line)
+    v.extend(all.iter().copied().filter(|c| c.obj_streams && c.xref_stream == xs && c.compress == comp && (thorough || !c.v14)));
+    v
 }
 
 /// The writer allocates and frees a deflate state (hundreds of KB) per compressed stream; with
@@ -958,10 +920,6 @@ pub(crate) fn tune_allocator() {
 
 pub fn run(rep: &mut Report) {
     tune_allocator();
-    if std::env::var("C02_PROBE").is_ok() {
-        probe();
-        std::process::exit(0);
-    }
     let thorough = rep.tier.is_thorough();
     rep.rule(
         "one execution = one authoring program written under the 8 writer configurations without object streams \
@@ -975,7 +933,7 @@ pub fn run(rep: &mut Report) {
     rep.assume("annotations, outline entries and metadata are part of the programs (they add objects) but their own read-back is not compared: the property lists page count, boxes, rotation, operators and images");
     let dev = 1;
     let single_len = if thorough { 4 } else { 3 };
-    rep.note("objstm_family", json!("object-stream configurations are run for programs without size/rotation/metadata deviation that have one page and a body ≤ 1 (thorough ≤ 2), two pages with equal bodies ≤ 1 (thorough: any bodies ≤ 1), thorough also three pages with equal bodies ≤ 1; reason: the writer numbers its object stream 1000000, every such file carries a 1 000 001-entry cross-reference section (20 MB as a table) and costs the library reader 0.3–3 s"));
+    rep.note("objstm_family", json!("object-stream configurations (quick: header version 1.7 only) are run for programs without size/rotation/metadata deviation that have one page and a body ≤ 1 (thorough ≤ 2), two pages with equal bodies ≤ 1 (thorough: any bodies ≤ 1), thorough also three pages with equal bodies ≤ 1; reason: the writer numbers its object stream 1000000, every such file carries a 1 000 001-entry cross-reference section (20 MB as a table) and costs the library reader 0.3–3 s"));
     rep.note("writer_configurations", json!(Cfg::all().iter().map(|c| c.label()).collect::<Vec<_>>()));
 
     // development aid: C02_SECTIONS=single-page,two runs only the sections with these prefixes
@@ -983,7 +941,7 @@ pub fn run(rep: &mut Report) {
     if on("single-page") {
         rep.explore("single-page", Explore::dev(dev), |c: &mut Ctx| {
             let p = prog::choose_single_page(c, single_len);
-            let cfgs = configs_for(&p, thorough);
+            let cfgs = configs_for(c, &p, thorough);
             run_program(c, &p, &cfgs);
         });
     }
@@ -993,24 +951,24 @@ pub fn run(rep: &mut Report) {
     if thorough {
         rep.explore("single-page-dev2", Explore::dev(2), |c: &mut Ctx| {
             let p = prog::choose_single_page(c, 2);
-            let cfgs = configs_for(&p, thorough);
+            let cfgs = configs_for(c, &p, thorough);
             run_program(c, &p, &cfgs);
         });
     }
     rep.explore("two-pages", Explore::dev(dev), |c: &mut Ctx| {
         let p = prog::choose_multi_page(c, 2, 2, 1);
-        let cfgs = configs_for(&p, thorough);
+        let cfgs = configs_for(c, &p, thorough);
         run_program(c, &p, &cfgs);
     });
     rep.explore("three-pages", Explore::dev(if thorough { 1 } else { 0 }), |c: &mut Ctx| {
         let p = prog::choose_multi_page(c, 3, 3, 1);
-        let cfgs = configs_for(&p, thorough);
+        let cfgs = configs_for(c, &p, thorough);
         run_program(c, &p, &cfgs);
     });
     if thorough {
         rep.explore("two-pages-bodies-2", Explore::dev(1), |c: &mut Ctx| {
             let p = prog::choose_multi_page(c, 2, 2, 2);
-            let cfgs = configs_for(&p, true);
+            let cfgs = configs_for(c, &p, true);
             run_program(c, &p, &cfgs);
         });
     }
